@@ -324,8 +324,6 @@ WRecv(w) == /\ wpc[w] = IF RecvWaitsFirst THEN "recv2" ELSE "recv"
 \* pre-fix WaitFront: waits for a notification before it looks at the buffer
 WPark(w) == /\ RecvWaitsFirst /\ wpc[w] = "recv" /\ ~bdone /\ wpc' = [wpc EXCEPT ![w] = "parked"]
             /\ UNCHANGED <<bdone, loopv, chanv, smap, dist, wmsg, wseen, wmust, wvis, wto, wpar, subv, readv, pubv, statv, lifev, histv, budv>>
-WRepark(w) == /\ RecvWaitsFirst /\ wpc[w] = "recv2" /\ dist = <<>> /\ ~bdone /\ wpc' = [wpc EXCEPT ![w] = "parked"]
-              /\ UNCHANGED <<bdone, loopv, chanv, smap, dist, wmsg, wseen, wmust, wvis, wto, wpar, subv, readv, pubv, statv, lifev, histv, budv>>
 \* Receive fails with the context's error: the worker returns (broker.go:192-194)
 WExit(w) == /\ wpc[w] \in {"recv", "recv2", "parked"} /\ bdone /\ wpc' = [wpc EXCEPT ![w] = "done"]
             /\ UNCHANGED <<bdone, loopv, chanv, smap, dist, wmsg, wseen, wmust, wvis, wto, wpar, subv, readv, pubv, statv, lifev, histv, budv>>
@@ -384,7 +382,7 @@ Internal ==
   \/ \E t \in StopIds : StopRun(t)
   \/ \E v \in WaitIds : WaitLock(v) \/ WaitRet(v)
   \/ LDone \/ LSubBuffered \/ LUnsubBuffered \/ LStatsReply \/ LSendPush \/ LSendCtx
-  \/ \E w \in Workers : LSendDirect(w) \/ WRecv(w) \/ WPark(w) \/ WRepark(w) \/ WExit(w) \/ WEnd(w) \/ WSend(w)
+  \/ \E w \in Workers : LSendDirect(w) \/ WRecv(w) \/ WPark(w) \/ WExit(w) \/ WEnd(w) \/ WSend(w)
                         \/ WParDone(w) \/ WAbort(w)
   \/ \E w \in Workers, s \in Subs : WNext(w, s) \/ WParSend(w, s)
 
